@@ -2088,6 +2088,11 @@ fn check_definition<'a>(
     let mut variables = HashSet::new();
     free_variables(&definitions[current_index].2, 0, &mut variables);
 
+    // Visit the free variables in a fixed order, so the errors are reported in the same order on
+    // every run (the iteration order of a `HashSet` varies from run to run).
+    let mut variables = variables.into_iter().collect::<Vec<_>>();
+    variables.sort_unstable();
+
     // For each free variable bound by the let, check the corresponding definition.
     for variable in variables {
         if variable < definitions.len() {
